@@ -717,6 +717,19 @@ func (e *runtimeEnv) buildLeaf(id int, cfg *LeafCfg) flyt.Node {
 	case cfg.Fb == "absent" && !cfg.Retryable && cfg.Impl == "nilptr" && cfg.PrepS == "direct" && cfg.ExecS == "direct" && cfg.PostS == "direct":
 		e.nilNodeImpl = l
 		return (*nilNode)(nil)
+	case cfg.Impl == "twin" && cfg.PrepS != "absent":
+		// four DIFFERENT node types that print the same name (function-local types all called `step`, as same-named types of
+		// different packages do): what a node implements is a property of its type, not of its type's name
+		switch {
+		case cfg.Fb == "absent" && !cfg.Retryable:
+			return twinPlain(l)
+		case cfg.Fb == "absent":
+			return twinRetry(l)
+		case !cfg.Retryable:
+			return twinFb(l)
+		default:
+			return twinRetryFb(l)
+		}
 	case cfg.Fb == "absent" && !cfg.Retryable:
 		return &plainNode{l}
 	case cfg.Fb == "absent" && cfg.Retryable:
@@ -736,6 +749,23 @@ func (e *runtimeEnv) buildLeaf(id int, cfg *LeafCfg) flyt.Node {
 	default: // pass
 		return &baseStruct{flyt.NewBaseNode(flyt.WithMaxRetries(cfg.Budget), flyt.WithWait(wait)), l}
 	}
+}
+
+func twinPlain(l *leafImpl) flyt.Node {
+	type step struct{ *plainNode }
+	return step{&plainNode{l}}
+}
+func twinRetry(l *leafImpl) flyt.Node {
+	type step struct{ *plainRetry }
+	return step{&plainRetry{plainNode{l}}}
+}
+func twinFb(l *leafImpl) flyt.Node {
+	type step struct{ *plainFb }
+	return step{&plainFb{plainNode{l}}}
+}
+func twinRetryFb(l *leafImpl) flyt.Node {
+	type step struct{ *plainRetryFb }
+	return step{&plainRetryFb{plainRetry{plainNode{l}}}}
 }
 
 // function-style node through flyt.NewNode: options, builder methods, or a mixture
